@@ -101,7 +101,7 @@ def single_edit(ops, rng, gen):
     ops = copy.deepcopy(ops)
     nodes = [i for i, o in enumerate(ops) if o[0] == 'add_node']
     edges = [i for i, o in enumerate(ops) if o[0] == 'add_edge']
-    kind = rng.choice(['drop_node', 'drop_edge', 'retype', 'reverse', 'vtype', 'nmeta', 'emeta', 'extra', 'boolint', 'move'])
+    kind = rng.choice(['drop_node', 'drop_edge', 'retype', 'reverse', 'vtype', 'nmeta', 'emeta', 'extra', 'boolint', 'move', 'nullkey', 'nullkey', 'dropkey'])
     if kind == 'drop_node' and nodes:
         i = rng.choice(nodes)
         name = ops[i][1]
@@ -133,6 +133,23 @@ def single_edit(ops, rng, gen):
         o = list(ops[i])
         o[4] = dict(o[4] or {}, edited=[rng.randint(0, 3)])
         ops[i] = tuple(o)
+    elif kind == 'nullkey' and (nodes or edges):
+        # a tag that is present with a null / falsy value on one side and absent on the other
+        i = rng.choice(nodes + edges)
+        o = list(ops[i])
+        k = 3 if o[0] == 'add_node' else 4
+        o[k] = dict(o[k] or {}, **{rng.choice(['unit', 'a', 'zz']): rng.choice([None, None, 0, '', False, [], {}])})
+        ops[i] = tuple(o)
+    elif kind == 'dropkey' and (nodes or edges):
+        cands = [i for i in nodes + edges if ops[i][3 if ops[i][0] == 'add_node' else 4]]
+        if cands:
+            i = rng.choice(cands)
+            o = list(ops[i])
+            k = 3 if o[0] == 'add_node' else 4
+            m = dict(o[k])
+            del m[rng.choice(sorted(m))]
+            o[k] = m or None
+            ops[i] = tuple(o)
     elif kind == 'boolint' and nodes:
         i = rng.choice(nodes)
         o = list(ops[i])
@@ -157,6 +174,8 @@ def gen_pairs(rng, n, tier):
         base = []
         for _ in range(rng.randint(4, 22)):
             op = gen.op(g)
+            if i % 4 == 1:
+                H.warm_caches(g, rng, 0.25)
             H.apply_op(g, op)
             base.append(op)
         reb = rebuild_ops(g, rng)
